@@ -173,7 +173,7 @@ def expected(qast: Dict[str, Any], doc: Any, limit: int, work_cap: int = 2_000_0
             except ValueError:
                 return {"status": "unknown", "work": work, "max_nesting": max_nest}
             max_nest = max(max_nest, stats["max_nesting"])
-            work += stats["work"]
+            work += stats["work"] + len(nodes)  # every input and output node costs something
             stats["work"] = 0
         else:
             max_nest = max([nesting(v) for _l, v in nodes] or [0])
